@@ -134,9 +134,25 @@ ENTRY_ARGS = {
 }
 
 
-def call_entry(name, smp, S, coupling=0.0):
+def make_stale(pd, seed):
+    """the state in which the driver hands walkers back to the sampler: the walker matrices have been changed (QR, global
+    reconfiguration) since the cache was written, so the cached overlaps are off by walker-dependent determinant factors"""
+    import jax.numpy as jnp
+    r = np.random.RandomState(seed)
+
+    def mix(w):
+        w = np.array(w)
+        R = np.array([1.3 * np.eye(w.shape[2]) + 0.2 * r.randn(w.shape[2], w.shape[2]) for _ in range(w.shape[0])])
+        return jnp.array(np.einsum("wij,wjk->wik", w, R))
+    pd["walkers"] = [mix(x) for x in pd["walkers"]] if isinstance(pd["walkers"], list) else mix(pd["walkers"])
+    return pd
+
+
+def call_entry(name, smp, S, coupling=0.0, stale=None):
     import jax.numpy as jnp
     pd = systems.copy_prop_data(S["prop_data"])
+    if stale is not None:
+        pd = make_stale(pd, stale)
     hd = dict(S["ham_data"])
     if ENTRY_ARGS[name] == "plain":
         return getattr(smp, name)(S["ham"], hd, S["prop"], pd, S["trial"], S["wave_data"])
@@ -153,7 +169,7 @@ def dynamic_trace(name, S, params):
     tr.prop = S["prop"]
     with jax.disable_jit():
         with recording(tr, S["trial"], S["wave_data"]):
-            call_entry(name, smp, S)
+            call_entry(name, smp, S, stale=params.get("stale"))
     return tr
 
 
@@ -293,13 +309,14 @@ def run(ctx):
     nprop = 0
     for name, wt, tk, nelec, params in cfgs:
         S = systems.make_system(rng, tk, wt, norb=3, nelec=nelec, nchol=2, n_walkers=3, dt=0.05, seed=rng.randrange(1 << 30))
+        params = dict(params, stale=rng.randrange(1 << 20))
         try:
             tr = dynamic_trace(name, S, params)
         except Exception as ex:
             spec_fail.append((name, "entry point runs", {"walker_type": wt, "params": params, "error": repr(ex)[:300]}))
             continue
         dyn.append(tr)
-        lines.append(f"flatten {name} - " + " ".join(f"{k}={v}" for k, v in params.items()))
+        lines.append(f"flatten {name} - " + " ".join(f"{k}={v}" for k, v in params.items() if k != "stale"))
         nprop += len(tr.resid)
         if tr.resid:
             worst = max(worst, max(tr.resid))
@@ -368,7 +385,7 @@ def run(ctx):
     ctx.cov["evaluations"] = len(cfgs) + len(ddyn) + len(rep)
     ctx.cov["distinct_nontrivial"] = len({json.dumps([c[0], c[1], c[4]]) for c in cfgs if sum(c[4].values()) > 3}) + len(rep)
     ctx.cov["rule"] = ("every sampler entry point x {uhf trial + unrestricted walkers (2,1), rhf trial + restricted walkers (2,2), uhf trial + restricted walkers (2,1)} x a grid of "
-                       "(n_prop_steps, n_ene_blocks, n_sr_blocks); executed eagerly with recording wrappers; dynamic op trace compared with "
+                       "(n_prop_steps, n_ene_blocks, n_sr_blocks), each entered with a STALE cache (walker matrices changed since the cache was written, as after the driver's QR + global SR); executed eagerly with recording wrappers; dynamic op trace compared with "
                        "`flatten` of the generated program; coherence residual max|cached - recomputed|/|recomputed| measured at every propagate "
                        "entry; one complete driver.afqmc run (2 equilibration + 2 sampling iterations); jitted sampler vs explicit-refresh replay; "
                        "non-trivial = more than one block or step")
